@@ -534,6 +534,10 @@ func (mr *memRepo) repoInit() error {
 	statIndex, errIndex := os.Stat(filepath.Join(mr.path, indexFile))
 	//#nosec G304 internal method is only called with filenames within admin provided path.
 	layoutBytes, errLayout := os.ReadFile(filepath.Join(mr.path, layoutFile))
+	if (errIndex != nil && gcReadFailed(errIndex)) || (errLayout != nil && gcReadFailed(errLayout)) {
+		// whether there is a layout is unknown, the repo must not be kept as an empty one
+		return errors.Join(errIndex, errLayout)
+	}
 	if errIndex != nil || errLayout != nil || statIndex.IsDir() || !layoutVerify(layoutBytes) {
 		return nil
 	}
